@@ -1,4 +1,3 @@
 INIT Init
 NEXT Next
-INVARIANT JudgeInv
 CHECK_DEADLOCK FALSE
